@@ -491,7 +491,7 @@ func runCase(rt *rapid.T, maxN int) {
 	if rapid.IntRange(0, 3).Draw(rt, "withExit") == 0 {
 		duties = append(duties, exitDuty)
 	}
-	equivocations, crashes, lateStarts := 0, 0, 0
+	equivocations, crashes, lateStarts, otherFork := 0, 0, 0, 0
 
 	deliver := func(fr *memnet.Frame) {
 		if nodes[indexOf(peerIDs, fr.To)].crashed {
@@ -557,6 +557,13 @@ func runCase(rt *rapid.T, maxN int) {
 					continue
 				}
 				variant := variants[rapid.IntRange(0, 2).Draw(rt, "byzVariant")]
+				byzSlotShift := uint64(0)
+				if d.Type == core.DutySyncMessage {
+					byzSlotShift = rapid.SampledFrom([]uint64{0, 0, 1, 64, 128}).Draw(rt, "byzSlotShift")
+					if byzSlotShift >= 64 {
+						otherFork++
+					}
+				}
 				set := core.ParSignedDataSet{}
 				for _, v := range vals {
 					var data core.SignedData
@@ -572,7 +579,9 @@ func runCase(rt *rapid.T, maxN int) {
 						must(err)
 						data = cv
 					case core.DutySyncMessage:
-						msg := &altair.SyncCommitteeMessage{Slot: eth2p0.Slot(d.Slot), ValidatorIndex: v.index}
+						// the slot is not part of a sync message's root, but it selects the signing domain:
+						// the faulty node may claim another slot (same fork, or a later fork of the schedule)
+						msg := &altair.SyncCommitteeMessage{Slot: eth2p0.Slot(d.Slot + byzSlotShift), ValidatorIndex: v.index}
 						msg.BeaconBlockRoot[0] = variant
 						data = core.NewSignedSyncMessage(msg)
 					default:
@@ -677,7 +686,7 @@ func runCase(rt *rapid.T, maxN int) {
 	}
 	sort.Ints(byzList)
 	vstat.Case(fmt.Sprintf("%d|%s|%v|%d|%v|%s", n, string(nodeVariant), byzList, crashes, rs, strings.Join(trace, ",")), nontrivial,
-		cls("published", nPub > 0), cls("decided_at_>=2_nodes", nDecided >= 2), cls("variants>=2", len(distinctVariants) >= 2), cls("crash", crashes > 0), cls("late_start", lateStarts > 0), cls("equivocating_share", equivocations > 0),
+		cls("published", nPub > 0), cls("decided_at_>=2_nodes", nDecided >= 2), cls("variants>=2", len(distinctVariants) >= 2), cls("crash", crashes > 0), cls("late_start", lateStarts > 0), cls("equivocating_share", equivocations > 0), cls("byz_sync_message_claims_slot_of_another_fork", otherFork > 0),
 		cls("attester_published", dutiesPublished[core.DutyAttester]), cls("sync_published", dutiesPublished[core.DutySyncMessage]), cls("exit_published", dutiesPublished[core.DutyExit]), fmt.Sprintf("n=%d", n))
 	if nontrivial && equivocations > 0 && vstat.WantSample("byzantine") {
 		vstat.Sample("byzantine", map[string]any{"n": n, "node_variants": string(nodeVariant), "byzantine": byzList, "crashes": crashes, "published_roots": rs, "events": head(trace, 60)})
